@@ -42,6 +42,18 @@ CLAIMS = {
          "Decides: wake-up cases of every blocking select of the client transport by role (callers: transport.closed + own ctx; owner loop: shutdown + session ctx; reader: closed); owner closes transport.closed on every exit, reader starts shutdown on every exit, shutdown closed under sync.Once; plain sends only to per-request channels of capacity >= 1, at most one per iteration; replies delivered only on the found edge of the tag lookup; no explicit panic reachable from the client; every type assertion on peer data is comma-ok and its failure edge returns an error; failed request writes free the tag and are reported; inbound bounds obligations (shared with C03/C04).",
          "Not decided: time bounds, partial frames after a write deadline, select fairness.",
          "§4 C12, §3 E8"),
+ "C05": ("SSA dataflow/identity rules on transport.go: goroutine confinement of the tag map, edge conditions on allocateTag's returns, dominance (register-before-write), provenance of the reply channel, buffered-channel and select wake-up rules",
+         "Decides: the outstanding map never leaves the owner goroutine; allocateTag returns a value only on the not-found edge of a lookup of that same value, every returnable value is 0 or has passed != NOTAG, exhaustion guard precedes the search; outstanding[tag]=req dominates the write, the frame carries that tag and the request's message; a reply is sent on the response channel of the request found under the reply's own tag after deleting that entry; entries are deleted only there or for the unsent request; reply/error channels have capacity 1; send() waits on closed+ctx and turns Rerror into the error; single writer/reader.",
+         "Not decided: exactly-once under every reply order, >65535 requests, data races beyond map confinement.",
+         "§4 C05, §3 E7b/E8/E11"),
+ "C06": ("SSA identity rules on serveconn.go/fcall.go (reply tag/result derive from the request handed to Handle), edge conditions of the duplicate-tag lookup, constructor shape rules, dispatch-table exhaustiveness over ssesssion.go",
+         "Decides: both replies built in the handler goroutine carry the Tag of the request whose Message went to the single Handle call, with Handle's own result/error; the goroutine gets the request just received; dispatch and table store only on the not-found edge, duplicate tags answered with Rerror(duplicate tag) carrying the request's tag; newErrorFcall/newFcall shapes; one forward per completion; table confined; one reader/writer goroutine; every T-kind dispatches to exactly one Session method and returns the R-kind with code+1.",
+         "Not decided: handler completion orders, replies exceeding msize.",
+         "§4 C06, §3 E11/E12"),
+ "C07": ("SSA dominance and identity rules on the Tflush clause and the completion branch of conn.serve (ABA rule)",
+         "Decides: cancel-then-delete of the entry named by Oldtag dominates construction and the single send of Rflush (flush request's tag); unknown oldtag answered with Rerror(unknown tag); a completion is forwarded only when its tag is in the table AND the entry belongs to the request that produced it (identity bound at goroutine start, not the tag), so a flushed request's late reply can neither be sent nor consume a reused tag's entry.",
+         "Not decided: timing statements, handlers ignoring cancellation (their late completion is dropped by the decided identity test).",
+         "§4 C07"),
 }
 
 REASON_PENDING = "static check not built yet in this round (planned per DESIGN.md §4); not claimed until its rules are in place"
